@@ -25,18 +25,20 @@ type chanObj struct {
 
 type waiter struct {
 	g     *goroutine
-	val   value // value to send / received value
-	ok    bool
-	done  bool
-	sel   *selectWait // non-nil if part of a select
+	c     *chanObj
+	send  bool
+	val   value // value to send
+	sel   *selectWait
 	index int
 }
 
 type selectWait struct {
-	fired  bool
-	chosen int
-	val    value
-	ok     bool
+	fired      bool
+	chosen     int
+	val        value
+	ok         bool
+	closedSend bool
+	waiters    []*waiter
 }
 
 func (ex *Exec) newChan(n int, elem types.Type) *chanObj {
@@ -113,6 +115,9 @@ func (ex *Exec) chanRecv(c *chanObj) (value, bool) {
 }
 
 func (ex *Exec) chanClose(c *chanObj) {
+	if ex.sched != nil {
+		ex.sched.point("channel close")
+	}
 	if c == nil {
 		panic(targetPanic{ex.runtimeError("close of nil channel")})
 	}
@@ -141,6 +146,24 @@ func (ex *Exec) selectStmt(fr *frame, instr *ssa.Select) value {
 		if st.Send != nil {
 			cases[i].send = copyVal(fr.get(st.Send))
 		}
+	}
+	if ex.sched != nil {
+		pcs := make([]parkCase, len(cases))
+		for i, c := range cases {
+			pcs[i] = parkCase{c.c, c.dir == types.SendOnly, c.send}
+		}
+		chosen, recvVal, recvOk := ex.schedSelect(pcs, instr.Blocking)
+		r := tuple{tt.Const(64, uint64(int64(chosen))), tt.Bool(recvOk)}
+		for i, st := range instr.States {
+			if st.Dir == types.RecvOnly {
+				if i == chosen {
+					r = append(r, recvVal)
+				} else {
+					r = append(r, ex.zero(st.Chan.Type().Underlying().(*types.Chan).Elem()))
+				}
+			}
+		}
+		return r
 	}
 	for {
 		var ready []int
@@ -204,6 +227,8 @@ func (ex *Exec) spawn(fn value, args []value, pos token.Pos) {
 		return
 	}
 	switch ex.goMode {
+	case "sched":
+		panic(engineError{"scheduler not initialised"})
 	case "inline":
 		// run the goroutine to completion at the spawn point (one schedule)
 		func() {
